@@ -28,12 +28,12 @@ SHARDS = {"quick": 10, "thorough": 16}
 
 def floors(tier):
     q = tier == "quick"
-    return {"rejected/class": 4000 if q else 100000, "rejected/no-side-effect": 4000 if q else 100000,
-            "accepted": 600 if q else 8000}
+    return {"rejected/class": 4000 if q else 300000, "rejected/no-side-effect": 4000 if q else 300000,
+            "accepted": 600 if q else 12000}
 
 
 def generate(ctx):
-    nbase = 6 if ctx.tier == "quick" else 40
+    nbase = 6 if ctx.tier == "quick" else 120
     idx = 0
     for m in MODEL_NAMES:
         for b in range(nbase):
